@@ -322,6 +322,11 @@ class BaseTransform:
         # Idea: An operation applied to a Collection is individually
         #    applied to its BaseGeo and to each child.
 
+        # the input can be a view of the path of one of the children (e.g. `child.position`),
+        # which changes while the children are moved
+        if isinstance(displacement, np.ndarray):
+            displacement = displacement.copy()
+
         for child in getattr(self, "children", []):
             child.move(displacement, start=start)
 
